@@ -23,7 +23,7 @@ KW_NAMES = [
     "net",
 ]
 INT_NAMES = list(range(0, 12))
-TUPLE_NAMES = [("a", i) for i in range(6)] + [(0, i) for i in range(6)]
+TUPLE_NAMES = [("a", i) for i in range(6)] + [("b", i) for i in range(6)]  # mutually comparable (pgmpy sorts names)
 
 NAME_POOLS = {"str": STR_NAMES, "word": WORD_NAMES, "kw": KW_NAMES, "int": INT_NAMES, "tuple": TUPLE_NAMES}
 
